@@ -4,7 +4,12 @@ event protocol, dispatch order, stop requests, parameter-change window, schedule
 The real `fit` runs on tiny states with recording callbacks (LambdaCallback and CallbackBase subclasses), a
 recording SGD subclass (optimizer=), a counting scheduler class (scheduler=), torch.randperm wrapped in-process
 (one call per `_shuffle_data`), stdout captured for the Timer. Stop requests are injected by a chosen callback at
-a chosen event, or from inside `optimizer.step()` ("during the batch")."""
+a chosen event, or from inside `optimizer.step()` ("during the batch").
+
+A case is a SESSION: one state object and one or more consecutive `fit` calls on it (model: QV.Train.session). Each call has
+its own arguments: data (N rows, container form), pos/neg batch sizes, `callbacks=` container form (None / list / tuple /
+CallbackList / iterator; a later call may pass the very same container object again), time, scheduler, starting_epoch/epochs,
+stop injections, and what the caller does to the flag before it (nothing / `stop_training = True` / `= False`)."""
 import contextlib
 import hashlib
 import io
@@ -13,6 +18,7 @@ import re
 import numpy as np
 
 from . import qc
+from .c07 import FORMS as DATA_FORMS, container
 from .qc import torch
 
 FILES = [
@@ -26,13 +32,17 @@ REQUIRED_THEOREMS = [
     "C12_protocol", "C12_train_events_once", "C12_complete_without_stop", "C12_stop_in_batch",
     "C12_stop_at_epoch_end", "C12_stop_at_epoch_start", "C12_stop_at_train_start", "C12_no_event_after_stop",
     "C12_sticky", "C12_stopped_run_is_noop", "C12_param_window", "C12_dispatch_order",
-    "C12_scheduler_once_per_epoch",
+    "C12_scheduler_once_per_epoch", "C12_callbacks_container", "C12_batches_per_epoch", "C12_fit_args", "C12_session_stopped",
 ]
-RULE = ("case = (state kind, starting_epoch, epochs, N, pos_batch_size, callback identity list, LambdaCallback/subclass mix, "
-        "time flag, scheduler flag, stop already requested?, injected stop requests (callback identity, event) / (during batch e,b)); "
-        "epochs-starting_epoch in -2..3, N/batch sizes giving 1..4 batches (incl. N < batch), 0..3 callbacks (an object may be "
-        "listed twice); thorough injects a stop at every event and every batch of the unstopped run, quick a seeded subset; "
-        "non-trivial iff the run begins at least one epoch and (a stop is injected or there are >= 2 batches or >= 2 callbacks); "
+RULE = ("case = session on one state object (kind) of 1..3 consecutive fit calls, each call = (starting_epoch, epochs, N, "
+        "pos_batch_size, neg_batch_size in {None, 0, < pos, = pos, > pos, >= N}, data container form (tensor dtypes, non-contiguous "
+        "views, ndarray, list, tuple), callback identity list, callbacks container in {None, list, tuple, CallbackList, iterator} "
+        "(possibly empty; possibly the same container object as in the previous call), LambdaCallback/subclass mix, time flag, "
+        "scheduler flag, flag assignment before the call (none / True / False), injected stop requests (callback identity, event) "
+        "/ (during batch e,b), incl. periodic requests (every p-th epoch end / batch end)); epochs-starting_epoch in -2..3, N/batch "
+        "sizes giving 1..4 batches (incl. N < batch, N not divisible by pos or neg), 0..3 callbacks (an object may be listed "
+        "twice); thorough injects a stop at every event and every batch of the unstopped single call, quick a seeded subset; "
+        "non-trivial iff some call begins at least one epoch and (a stop is injected or there are >= 2 batches or >= 2 callbacks); "
         "distinct by hash of the case")
 EXTRA_TRUSTED = [
     "C12: user callbacks are modelled only through the stop requests they make (Req); exceptions raised by callbacks, "
@@ -40,7 +50,8 @@ EXTRA_TRUSTED = [
 ]
 
 KINDS = ("pos", "cplx", "dens")
-NB_CHOICES = [(4, 4), (2, 5), (3, 2), (4, 2), (5, 2), (3, 1), (4, 1), (7, 2)]  # (N, B) -> 1,1,2,2,3,3,4,4 batches
+NB_CHOICES = [(4, 4), (2, 5), (3, 2), (4, 2), (5, 2), (3, 1), (4, 1), (7, 2), (10, 3), (7, 3), (5, 3), (9, 4)]  # 1..4 batches
+CB_FORMS = ("list", "tuple", "cblist", "iter")
 
 
 # ------------------------------------------------------------------ reference generator (independent of model and code)
@@ -120,6 +131,15 @@ class _Recorder:
         self.log.append(["call", ident, ev, bool(st.stop_training), self.version(st)])
         if (ident, tuple(ev)) in self.inject_cb:
             st.stop_training = True
+
+
+class _Holder:
+    """callback objects live for the whole session; `rec` is the recorder of the call in progress"""
+
+    rec = None
+
+    def handle(self, ident, st, ev):
+        self.rec.handle(ident, st, ev)
 
 
 def make_callback(rec, ident, as_lambda):
@@ -207,6 +227,22 @@ def parse_prints(text):
     return out
 
 
+def make_container(cb_list, form):
+    """the `callbacks=` argument in the given container form"""
+    from qucumber.callbacks import CallbackList
+
+    if form == "none":
+        assert not cb_list
+        return None
+    if form == "tuple":
+        return tuple(cb_list)
+    if form == "cblist":
+        return CallbackList(cb_list)
+    if form == "iter":
+        return iter(list(cb_list))
+    return list(cb_list)
+
+
 def make_data(kind, N, rng):
     n = 2
     data = [[rng.randint(0, 1) for _ in range(n)] for _ in range(N)]
@@ -229,27 +265,71 @@ def strip_model_log(mlog):
     return out
 
 
+def as_session(case):
+    """old single-call cases (corpus, earlier replays) are sessions of one call"""
+    if "runs" in case:
+        return case
+    run = {k: case[k] for k in ("start", "epochs", "N", "B", "cbs", "time", "sched", "inject_cb", "inject_mid")}
+    run.update(neg=None, form="tensor_f64", cb_form=("list" if case["cbs"] else "none"), pre=(True if case["stop0"] else None))
+    return {"kind": case["kind"], "lambda": case["lambda"], "runs": [run], "dseed": case["dseed"]}
+
+
 def one_case(ctx, case):
-    ctx.current_case = case
-    kind, start, epochs, N, B = case["kind"], case["start"], case["epochs"], case["N"], case["B"]
-    cbs, lam, timer, sched, stop0 = case["cbs"], case["lambda"], case["time"], case["sched"], case["stop0"]
-    inj_cb, inj_mid = case["inject_cb"], case["inject_mid"]
-    nb = -(-N // B)
     import random
 
+    case = as_session(case)
+    ctx.current_case = case
+    kind, lam, runs = case["kind"], case["lambda"], case["runs"]
     rng = random.Random(case["dseed"])
     st = make_state(kind, rng)
+    torch.manual_seed(case["dseed"])
+    hold = _Holder()
+    objs = {}
+    for run in runs:
+        for i in run["cbs"]:
+            if i not in objs:
+                objs[i] = make_callback(hold, i, lam[i % len(lam)] if lam else True)
+    model = None
+    if ctx.driver is not None:
+        model = ctx.driver.call("c12.session", stop0=False, runs=[
+            {"pre": r["pre"], "start": r["start"], "epochs": r["epochs"], "N": r["N"], "posB": r["B"], "negB": r["neg"],
+             "hasBases": kind != "pos", "callbacks": {"form": r["cb_form"], "items": r["cbs"]}, "timer": r["time"],
+             "hasSched": r["sched"], "req_cb": [[i, ev] for i, ev in r["inject_cb"]],
+             "req_mid": [[e, b] for e, b in r["inject_mid"]]} for r in runs])
+    sess = {"stop": False, "container": None, "container_key": None, "nontriv": False, "sample": None}
+    ctx.count(f"calls_per_session={len(runs)}")
+    for r_idx, run in enumerate(runs):
+        m = None
+        if model is not None:
+            m = model["runs"][r_idx] if "runs" in model else {"error": model.get("error")}
+        one_call(ctx, {**case, "run": r_idx}, kind, st, rng, hold, objs, run, r_idx, sess, m)
+    ctx.case({k: case[k] for k in case if k != "dseed"}, nontrivial=sess["nontriv"], sample=sess["sample"])
+
+
+def one_call(ctx, case, kind, st, rng, hold, objs, run, r_idx, sess, m):
+    start, epochs, N, B, neg = run["start"], run["epochs"], run["N"], run["B"], run["neg"]
+    cbs, timer, sched, pre = run["cbs"], run["time"], run["sched"], run["pre"]
+    inj_cb, inj_mid = run["inject_cb"], run["inject_mid"]
+    nb = -(-N // B)
     data, bases = make_data(kind, N, rng)
     ordinal = lambda e, b: (e - start) * nb + b  # noqa: E731
     rec = _Recorder(inj_cb, [ordinal(e, b) for e, b in inj_mid])
-    objs = {i: make_callback(rec, i, lam[i % len(lam)] if lam else True) for i in set(cbs)}
+    hold.rec = rec
     cb_list = [objs[i] for i in cbs]
-    torch.manual_seed(case["dseed"])
-    if stop0:
-        st.stop_training = True
+    key = (run["cb_form"], tuple(cbs))
+    if run.get("cb_same") and sess["container"] is not None and sess["container_key"] == key and run["cb_form"] != "iter":
+        cb_arg = sess["container"]  # the caller passes the very same container object again
+        ctx.count("same_container_object_again")
+    else:
+        cb_arg = make_container(cb_list, run["cb_form"])
+    sess["container"], sess["container_key"] = cb_arg, key
+    if pre is not None:
+        st.stop_training = pre
+    stop0 = (sess["stop"] if pre is None else pre)  # expected flag at entry: left by the previous call unless reassigned
+    flag_at_entry = bool(st.stop_training)
     h_before = param_hash(st)
     rec.hashes[h_before] = 0
-    data_t = torch.tensor(data, dtype=torch.double)
+    data_obj = container(data, run["form"])
     bases_a = np.array(bases) if bases is not None else None
     orig_randperm = torch.randperm
 
@@ -262,8 +342,8 @@ def one_case(ctx, case):
     torch.randperm = rp
     try:
         with contextlib.redirect_stdout(buf):
-            st.fit(data_t, epochs=epochs, pos_batch_size=B, k=1, lr=0.1, input_bases=bases_a, progbar=False,
-                   starting_epoch=start, time=timer, callbacks=(cb_list if cb_list else None),
+            st.fit(data_obj, epochs=epochs, pos_batch_size=B, neg_batch_size=neg, k=1, lr=0.1, input_bases=bases_a, progbar=False,
+                   starting_epoch=start, time=timer, callbacks=cb_arg,
                    optimizer=make_optimizer_class(rec, st), optimizer_args={"weight_decay": 0.05},
                    scheduler=(make_scheduler_class(rec) if sched else None))
     except Exception as e:  # fit is not expected to raise on these inputs
@@ -273,25 +353,39 @@ def one_case(ctx, case):
     prints = parse_prints(buf.getvalue())
     final = {"stop": bool(st.stop_training), "ver": rec.opt_steps, "sched": rec.sched_steps}
     h_after = param_hash(st)
+    if run["cb_form"] in ("list", "tuple", "cblist"):  # frame: the caller's container still holds exactly the callbacks it listed
+        ident_of = {id(o): i for i, o in objs.items()}
+        after_items = [ident_of.get(id(o), f"foreign:{type(o).__name__}") for o in cb_arg]
+        ctx.point("caller's callbacks container after the call", "aux", after_items, cbs, case, exact=True, sig=f"{kind}/fit/callbacks-container-frame")
     L = len(cbs)
     calls = [en for en in rec.log if en[0] == "call"]
     groups = [calls[k:k + L] for k in range(0, len(calls), L)] if L else []
     impl_events = [g[0][2] for g in groups] if L else None
 
     sig = f"{kind}/fit"
-    desc = {k: case[k] for k in case if k != "dseed"}
     exp_events, exp_stop = ref_events(
         start, epochs, nb, stop0,
         lambda p: (p[0] == "mid" and [p[1], p[2]] in inj_mid) or (p[0] != "mid" and any(i in cbs and ev == p for i, ev in inj_cb)))
+    sess["stop"] = exp_stop
     begun = sum(1 for ev in exp_events if ev[0] == "es")
-    ctx.case(desc, nontrivial=(begun >= 1 and (bool(inj_cb) or bool(inj_mid) or nb >= 2 or L >= 2)),
-             sample={"kind": kind, "start": start, "epochs": epochs, "nb": nb, "cbs": cbs, "inject_cb": inj_cb,
-                     "inject_mid": inj_mid, "events": len(exp_events)})
+    if begun >= 1 and (bool(inj_cb) or bool(inj_mid) or nb >= 2 or L >= 2):
+        sess["nontriv"] = True
+    if sess["sample"] is None:
+        sess["sample"] = {"kind": kind, "calls": len(case["runs"]), "start": start, "epochs": epochs, "N": N, "B": B, "neg": neg,
+                          "nb": nb, "cbs": cbs, "cb_form": run["cb_form"], "inject_cb": inj_cb, "inject_mid": inj_mid,
+                          "events": len(exp_events)}
+    negkey = ("None" if neg is None else "0" if neg == 0 else "<B" if neg < B else "=B" if neg == B else
+              ">B,same#batches" if -(-N // neg) == nb else ">B,fewer")
     for key in (f"kind={kind}", f"epochs-start={epochs - start}", f"batches={nb}", f"callbacks={L}", f"time={timer}",
-                f"sched={sched}", f"stop0={stop0}"):
+                f"sched={sched}", f"stop0={stop0}", f"neg={negkey}", f"cb_form={run['cb_form']}", f"form={run['form']}",
+                f"call#{r_idx}:pre={pre}", f"N%B={'0' if N % B == 0 else 'r'}"):
         ctx.count(key)
     if inj_cb:
         ctx.count(f"inject_at={inj_cb[0][1][0]}")
+    if run.get("periodic"):
+        ctx.count(f"periodic_requests(p={run['periodic']})" + (",start>1" if start > 1 else ""))
+    if r_idx and pre is None and stop0:
+        ctx.count("call_after_a_call_that_ended_stopped(no reset)")
     if inj_mid:
         ctx.count("inject_at=mid")
     if not inj_cb and not inj_mid:
@@ -299,13 +393,16 @@ def one_case(ctx, case):
 
     # ---------------- oracles on the implementation (independent of the model)
     ctx.oracle("fit raised", err is None, case, detail=err, sig=f"{sig}/exception", theorem="C12_protocol")
+    ctx.oracle("flag at entry == flag left by the previous call (or the caller's assignment)", flag_at_entry == stop0, case,
+               detail={"impl": flag_at_entry, "expected": stop0}, sig=f"{sig}/flag-at-entry", theorem="C12_sticky, C12_session_stopped")
     if L:
         ok_disp = (len(calls) % L == 0 and all([c[1] for c in g] == cbs and all(c[2] == g[0][2] for c in g) for g in groups))
         ctx.oracle("dispatch: every event reaches all callbacks in list order", ok_disp, case,
-                   detail={"calls": [[c[1], c[2]] for c in calls[:60]]}, sig=f"{sig}/dispatch-order", theorem="C12_dispatch_order")
+                   detail={"calls": [[c[1], c[2]] for c in calls[:60]]}, sig=f"{sig}/dispatch-order",
+                   theorem="C12_dispatch_order, C12_callbacks_container")
         ctx.oracle("event trace == protocol reference", impl_events == exp_events, case,
                    detail={"impl": impl_events, "expected": exp_events}, sig=f"{sig}/protocol",
-                   theorem="C12_protocol, C12_complete_without_stop, C12_stop_*")
+                   theorem="C12_protocol, C12_complete_without_stop, C12_stop_*, C12_batches_per_epoch")
         # parameter window: version changes by exactly one from a batch-start to its batch-end, never elsewhere
         ok_win = True
         prev = None
@@ -325,28 +422,38 @@ def one_case(ctx, case):
         ctx.oracle("parameters change exactly once per batch window and nowhere else", ok_win, case,
                    detail={"versions": [[g[0][2], g[0][4]] for g in groups]}, sig=f"{sig}/param-window", theorem="C12_param_window")
         # seen flags: OR of the requests made so far
-        run = stop0
+        run_flag = stop0
         ok_seen = True
         k_opt = 0
         for en in rec.log:
             if en[0] == "call":
-                if en[3] != run:
+                if en[3] != run_flag:
                     ok_seen = False
                 if any(i == en[1] and ev == en[2] for i, ev in inj_cb):
-                    run = True
+                    run_flag = True
             elif en[0] == "opt":
                 if k_opt in rec.inject_mid:
-                    run = True
+                    run_flag = True
                 k_opt += 1
-        ctx.oracle("flag seen by handlers == OR of requests so far (sticky)", ok_seen and final["stop"] == run, case,
+        ctx.oracle("flag seen by handlers == OR of requests so far (sticky)", ok_seen and final["stop"] == run_flag, case,
                    sig=f"{sig}/sticky", theorem="C12_sticky")
     ctx.oracle("final flag", final["stop"] == exp_stop, case, detail={"impl": final["stop"], "expected": exp_stop},
                sig=f"{sig}/final-flag", theorem="C12_sticky")
     n_bs = sum(1 for ev in exp_events if ev[0] == "bs")
     ctx.oracle("one optimizer step per batch begun", final["ver"] == n_bs, case, detail={"steps": final["ver"], "batches": n_bs},
-               sig=f"{sig}/opt-count", theorem="C12_param_window")
+               sig=f"{sig}/opt-count", theorem="C12_param_window, C12_batches_per_epoch")
     ctx.oracle("one scheduler step per epoch begun", final["sched"] == (begun if sched else 0), case,
                detail={"steps": final["sched"], "epochs_begun": begun}, sig=f"{sig}/sched-count", theorem="C12_scheduler_once_per_epoch")
+    # batches per epoch: every epoch that is not cut short by a stop has ceil(N / pos_batch_size) optimizer steps
+    per_epoch = []
+    for en in rec.log:
+        if en[0] == "shuffle":
+            per_epoch.append(0)
+        elif en[0] == "opt" and per_epoch:
+            per_epoch[-1] += 1
+    full = per_epoch[:-1] if exp_stop and not stop0 else per_epoch
+    ctx.oracle("every uninterrupted epoch has ceil(N / pos_batch_size) batches", all(x == nb for x in full) and len(per_epoch) == begun,
+               case, detail={"per_epoch": per_epoch, "expected": nb}, sig=f"{sig}/batches-per-epoch", theorem="C12_batches_per_epoch")
     # scheduler position: after the last optimizer step of the epoch and before the epoch-end calls
     if sched and L:
         ok_pos = True
@@ -361,43 +468,51 @@ def one_case(ctx, case):
                    sig=f"{sig}/sched-position", theorem="C12_scheduler_once_per_epoch")
     if stop0:
         ctx.oracle("stopped run is a no-op", rec.log == [] and prints == [] and h_after == h_before and final["stop"], case,
-                   detail={"log": rec.log[:10], "prints": prints}, sig=f"{sig}/noop", theorem="C12_stopped_run_is_noop")
+                   detail={"log": rec.log[:10], "prints": prints}, sig=f"{sig}/noop", theorem="C12_stopped_run_is_noop, C12_session_stopped")
     if timer and not stop0:
         first_set = None
         if L:
-            run, k_opt, in_group = False, 0, 0
+            run_flag, k_opt, in_group = False, 0, 0
             for en in rec.log:
                 if en[0] == "opt":
                     if k_opt in rec.inject_mid:
-                        run = True
+                        run_flag = True
                     k_opt += 1
                 elif en[0] == "call":
                     if any(i == en[1] and ev == en[2] for i, ev in inj_cb):
-                        run = True
+                        run_flag = True
                     in_group += 1
                     if in_group == L:  # the Timer runs after the last user callback of this dispatch
                         in_group = 0
-                        if run and first_set is None and en[2][0] in ("be", "ee"):
+                        if run_flag and first_set is None and en[2][0] in ("be", "ee"):
                             first_set = en[2]
             want = ([["tb", first_set[1], first_set[2]]] if first_set and first_set[0] == "be" else
                     [["tep", first_set[1]]] if first_set else []) + [["total"]]
             ctx.oracle("Timer lines", prints == want, case, detail={"impl": prints, "expected": want}, sig=f"{sig}/timer-oracle")
         else:
             ctx.oracle("Timer prints total", prints[-1:] == [["total"]], case, detail={"impl": prints}, sig=f"{sig}/timer-oracle")
+    if not timer:
+        ctx.oracle("no Timer output without time=True", prints == [], case, detail={"impl": prints}, sig=f"{sig}/timer-oracle")
 
-    # ---------------- correspondence with the model
-    if ctx.driver is not None:
-        m = ctx.driver.call("c12.fit", start=start, epochs=epochs, numBatches=nb, cbs=cbs, timer=timer, hasSched=sched,
-                            stop0=stop0, req_cb=[[i, ev] for i, ev in inj_cb], req_mid=[[e, b] for e, b in inj_mid])
+    # ---------------- correspondence with the model (QV.Train.session; this call's entry)
+    if m is not None:
+        if "error" in m:
+            ctx.point("model error on a call the implementation completed", "property", err, m["error"], case, exact=True, sig=f"{sig}/events")
+            return
         if L:
             ctx.point("events", "property", impl_events, m["events"], case, exact=True, sig=f"{sig}/events",
-                      theorem="C12_protocol, C12_complete_without_stop, C12_stop_in_batch/at_epoch_end/at_epoch_start/at_train_start")
+                      theorem="C12_protocol, C12_complete_without_stop, C12_stop_in_batch/at_epoch_end/at_epoch_start/at_train_start, C12_fit_args")
             ctx.point("calls", "property", [[c[1], c[2]] for c in calls], m["calls"], case, exact=True, sig=f"{sig}/calls",
-                      theorem="C12_dispatch_order")
+                      theorem="C12_dispatch_order, C12_callbacks_container")
         ctx.point("log", "property", rec.log, strip_model_log(m["log"]), case, exact=True, sig=f"{sig}/log",
-                  theorem="C12_param_window, C12_sticky, C12_scheduler_once_per_epoch")
+                  theorem="C12_param_window, C12_sticky, C12_scheduler_once_per_epoch, C12_batches_per_epoch")
         ctx.point("final", "property", final, {"stop": m["stop"], "ver": m["ver"], "sched": m["sched"]}, case, exact=True,
-                  sig=f"{sig}/final", theorem="C12_sticky, C12_param_window, C12_scheduler_once_per_epoch, C12_stopped_run_is_noop")
+                  sig=f"{sig}/final", theorem="C12_sticky, C12_param_window, C12_scheduler_once_per_epoch, C12_stopped_run_is_noop, C12_session_stopped")
+        if full:
+            ctx.point("batches per uninterrupted epoch", "property", sorted(set(full)), [m["batchesPerEpoch"]], case, exact=True,
+                      sig=f"{sig}/batches-per-epoch", theorem="C12_batches_per_epoch")
+        ctx.point("callbacks reached", "property", sorted({c[1] for c in calls}) if exp_events else [], sorted(set(m["cbs"])) if exp_events else [],
+                  case, exact=True, sig=f"{sig}/callbacks-reached", theorem="C12_callbacks_container")
         ctx.point("timer_prints", "aux", prints, m["prints"], case, exact=True, sig=f"{sig}/timer")
 
 
@@ -417,8 +532,38 @@ def cb_lists(rng):
     return rng.choice([[0], [0, 1], [0, 1, 2], [1, 0], [2, 0, 1], [0, 1, 0], [0], [0, 1]])
 
 
+def neg_choice(rng, N, B):
+    """neg_batch_size: None / 0 (falsy) / smaller / equal / larger than pos_batch_size (incl. >= N: a single negative slice)"""
+    mode = rng.choice(["none", "none", "zero", "lt", "eq", "gt", "gt", "big", "big"])
+    if mode == "none":
+        return None
+    if mode == "zero":
+        return 0
+    if mode == "lt":
+        return rng.randint(1, B - 1) if B > 1 else None
+    if mode == "eq":
+        return B
+    if mode == "gt":
+        return B + rng.randint(1, max(1, B))
+    return max(B + 1, N + rng.randint(0, 3))
+
+
+def cb_form_choice(rng, cbs):
+    return rng.choice(CB_FORMS if cbs else ("none", "none") + CB_FORMS)
+
+
+def periodic(start, epochs, nb, cbs, rng):
+    """a callback that asks for a stop at every p-th epoch end (as EarlyStopping-like callbacks with a period do) or at every
+    p-th batch end; only the first request inside the run matters"""
+    p = rng.choice([2, 3])
+    i = rng.choice(cbs)
+    if rng.random() < 0.6 or nb < 2:
+        return [[i, ["ee", e]] for e in range(start, epochs + 1) if e % p == 0], p
+    return [[i, ["be", e, b]] for e in range(start, epochs + 1) for b in range(nb) if (b + 1) % p == 0], p
+
+
 def injections(start, epochs, nb, cbs, rng, thorough, quota):
-    """list of (inject_cb, inject_mid, stop0)"""
+    """list of (inject_cb, inject_mid, stop0[, period])"""
     pts = ref_points(start, epochs, nb)
     out = [([], [], False), ([], [], True)]
     if not cbs:
@@ -441,7 +586,52 @@ def injections(start, epochs, nb, cbs, rng, thorough, quota):
         out.append((icb, imid, False))
         if cbs and pb[0] != "mid":
             out.append(([[99, pa if pa[0] != "mid" else pb], [rng.choice(cbs), pb]], [], False))
+    if cbs and epochs >= start:
+        icb, p = periodic(start, epochs, nb, cbs, rng)
+        out.append((icb, [], False, p))
     return out
+
+
+def make_run(rng, start, epochs, N, B, cbs, timer, sched, icb, imid, pre):
+    return {"start": start, "epochs": epochs, "N": N, "B": B, "neg": neg_choice(rng, N, B), "form": rng.choice(DATA_FORMS),
+            "cbs": cbs, "cb_form": cb_form_choice(rng, cbs), "time": timer, "sched": sched, "pre": pre,
+            "inject_cb": icb, "inject_mid": imid}
+
+
+def gen_session(rng):
+    """2..3 consecutive calls on one object; each call has its own sizes / callbacks / options; the caller sometimes clears or sets
+    the flag in between, sometimes passes the same callbacks container again"""
+    runs = []
+    for r in range(rng.choice([2, 2, 3])):
+        N, B = rng.choice(NB_CHOICES)
+        nb = -(-N // B)
+        start = rng.choice([1, 1, 0, -2, 3, 7])
+        epochs = start + rng.choice([-1, 0, 0, 1, 1, 2])
+        if r and rng.random() < 0.5:
+            cbs = list(runs[-1]["cbs"])
+        else:
+            cbs = cb_lists(rng) if rng.random() < 0.85 else []
+        pts = ref_points(start, epochs, nb)
+        icb, imid, per = [], [], None
+        u = rng.random()
+        cand = [p for p in pts if (cbs or p[0] == "mid")]
+        if u < 0.45 and cand:
+            p = rng.choice(cand)
+            if p[0] == "mid":
+                imid = [[p[1], p[2]]]
+            else:
+                icb = [[rng.choice(cbs), p]]
+        elif u < 0.55 and cbs and epochs >= start:
+            icb, per = periodic(start, epochs, nb, cbs, rng)
+        pre = rng.choice([None, None, None, False, False, True]) if r else rng.choice([None, None, None, None, False, True])
+        run = make_run(rng, start, epochs, N, B, cbs, rng.random() < 0.6, rng.random() < 0.5, icb, imid, pre)
+        if per:
+            run["periodic"] = per
+        if r and cbs == runs[-1]["cbs"] and rng.random() < 0.7:
+            run["cb_form"] = runs[-1]["cb_form"]
+            run["cb_same"] = True
+        runs.append(run)
+    return runs
 
 
 def gen_cases(ctx, thorough):
@@ -457,10 +647,14 @@ def gen_cases(ctx, thorough):
                 timer = (v % 2 == 0) if thorough else rng.random() < 0.5
                 sched = rng.random() < 0.6
                 quota = 4 if kind == "pos" else 2
-                for (icb, imid, stop0) in injections(start, epochs, nb, cbs, rng, thorough, quota):
-                    yield {"kind": kind, "start": start, "epochs": epochs, "N": N, "B": B, "cbs": cbs, "lambda": lam,
-                           "time": timer, "sched": sched, "stop0": stop0, "inject_cb": icb, "inject_mid": imid,
-                           "dseed": rng.randrange(1 << 30)}
+                for (icb, imid, stop0, *per) in injections(start, epochs, nb, cbs, rng, thorough, quota):
+                    run = make_run(rng, start, epochs, N, B, cbs, timer, sched, icb, imid, True if stop0 else None)
+                    if per:
+                        run["periodic"] = per[0]
+                    yield {"kind": kind, "lambda": lam, "dseed": rng.randrange(1 << 30), "runs": [run]}
+    for i in range(1500 if thorough else 150):
+        yield {"kind": KINDS[i % 3] if i % 2 else "pos", "lambda": [rng.random() < 0.5 for _ in range(3)],
+               "dseed": rng.randrange(1 << 30), "runs": gen_session(rng)}
 
 
 def run(ctx):
@@ -481,4 +675,4 @@ def search(ctx):
 
 
 def replay(ctx, case):
-    one_case(ctx, case)
+    one_case(ctx, {k: v for k, v in case.items() if k != "run"})
